@@ -71,7 +71,27 @@ CLAIM = dict(
           "clause of staleMasks). wait_for_cores_to_reach_state: the iterable of states must be re-iterable (a generator "
           "is consumed by the first poll); time is an integer clock supplied by the environment; `while True` is modelled "
           "with fuel and an explicit out-of-fuel result. The machine specification models only the start signal and the "
-          "count request; for the other signals only the packing is proved/compared. SCP transport reliability is C06."),
+          "count request; for the other signals only the packing is proved/compared. SCP transport reliability is C06. "
+          "Validated by which stream: single calls, history steps and scale cases all go through the same oracles "
+          "(wellFormedFill/isFillPkts, regionsOK, resendOK, postOkCore/postErrCore with staleMasks/staleHides, "
+          "startOnceOK, trace/outcome/state equality with both controller models, simulator = machine specification); "
+          "histories add: error payload unchanged after later calls (violation error-payload-changed), caller's map not "
+          "modified and str(error) does not raise (mismatch only: the property does not speak about them), a call that "
+          "does not return within the CPU limit (violation did-not-return: the model's loop terminates, "
+          "attempts_bounded); an injected transport fault / missing file is only tagged (SCPError / IOError belong to "
+          "other layers) - what is checked is that the following steps on the same objects pass all oracles. "
+          "Checklist items judged not applicable: byte-string kinds (the binary is read from a file by the code "
+          "itself); big ints for app_id / core / chip numbers (8-, 5- and 8-bit wire fields: domain app id < 256, cores "
+          "< 18, coordinates < 256, so machines are at most 256 chips long and nothing is counted in 16 bits; "
+          "the 8-bit counts are exercised: 256/257 blocks = known finding, > 126 fills = id wrap); one-shot iterators "
+          "for cores (load_application takes len() of them) - they are used for the states of count_cores_in_state "
+          "only; subclasses of rig classes other than the controller (the API takes plain dicts and sets); lazily "
+          "consumed results (nothing lazy is returned); recursion depth (no recursion in scope except the 4-level "
+          "region tree of C12); alternative struct layouts / offsets (`structs=` of the controller: the layout is data "
+          "regenerated by the translator, varying it is C07/C13's configuration stream); SCP timeouts / window / "
+          "retries of the connection (C06); the model receives n_tries capped at 40 (beyond the missed script every "
+          "attempt reaches every chip). Left at the default everywhere: `structs`, `scp_port`, `boot_port`, "
+          "`initial_context` of the controller constructor."),
     technique="Lean 4 theorems over controller model x machine specification + trace correspondence against a simulated machine + Lean spec oracles")
 
 THEOREMS = ["nnid_range", "fill_wellformed", "fill_loads_exactly", "attempts_bounded",
@@ -106,7 +126,22 @@ RULE = ("cases = (machine of 1-40 chips: rectangles at several origins incl. ali
         "invalid names and numbers; count_cores_in_state with one state or a list / tuple / generator of 0-4 states incl. "
         "invalid ones; wait_for_cores_to_reach_state with target counts around the current count, timeout none or 0-8 "
         "ticks, clock scripts advancing by one / jumping / stalling, up to 5 evolution steps of the machine during the "
-        "sleeps, fuel 4-9), non-trivial = at least one sleep, a list of states, an error or a delivered signal")
+        "sleeps, fuel 4-9; arguments by name / enum member / int / bool, positionally / by keyword / app_id through the "
+        "controller context; target counts up to 2**64), non-trivial = at least one sleep, a list of states, an error or "
+        "a delivered signal; STREAMS: (1) single calls on a fresh machine and controller [all oracles]; every case also "
+        "draws the argument kinds (cores as set / frozenset / list / tuple / dict keys / range, map as dict / OrderedDict / "
+        "defaultdict, file names as str / pathlib.Path incl. names containing '%' and '{}', ints as int / numpy.int64, "
+        "flags as bool / int, n_tries up to 2**100, parameters left at their documented default, app_start_delay 0 / 0.1 / "
+        "0.5 / 1 with the sleep recorded, a user subclass of MachineController, sv.vcpu_base differing between chips, an "
+        "empty map); (2) histories of 2-6 calls (one of 35 calls / > 130 fills, so the fill id wraps) on ONE machine "
+        "through one or two controllers after a reload of the rig modules: each step judged as a single case with the "
+        "actual pre-state and nn-id by all oracles; steps are the previous call again / a twin differing in one aspect "
+        "(one core, one chip, one image under the same file name, wait, mode, app id, n_tries, argument kinds, calling "
+        "convention, delay, flood_fill_aplx called directly) / another map; the caller edits in place the map objects it "
+        "passed before, edits or keeps the map of every SpiNNakerLoadingError (kept ones are re-read after every later "
+        "call), the transport dies at a scripted datagram or a file is missing and the same objects are used afterwards; "
+        "(3) scale: 136 binaries in one map, machines 256x1 / 1x256 / 2x200 / 16x16; every implementation call under a CPU "
+        "limit (20 s)")
 
 # SCP data buffer sizes the machine reports through sver (scp_data_length): the usual 256, small ones, and
 # machines with a LARGER buffer (every multiple of 4 up to 1024 is in the domain: the word count of a data
@@ -131,9 +166,11 @@ def sim_selects(region, x, y):
 
 
 class LoadMachine(simmachine.SimMachine):
-    def __init__(self, chips, buffer_size, sdram_sys, vcpu_base, missed, pre, consts, sver="semver"):
+    def __init__(self, chips, buffer_size, sdram_sys, vcpu_base, missed, pre, consts, sver="semver", vcpu_bases=()):
         super(LoadMachine, self).__init__(1, 1, buffer_size=buffer_size, root=tuple(chips[0]))
         self.sver = sver
+        # sv.vcpu_base is a per-chip system variable: chips listed here have their own
+        self.vcpu_bases = {(x, y): b for x, y, b in vcpu_bases}
         self.k = consts
         self.chips = [tuple(c) for c in chips]
         self.sdram_sys, self.vcpu_base = sdram_sys, vcpu_base
@@ -148,6 +185,14 @@ class LoadMachine(simmachine.SimMachine):
 
     def core(self, x, y, p):
         return self.cores.get((x, y, p), (IDLE, 0, ()))
+
+    def begin_call(self, missed):
+        """a new call of the history on the same machine: its own missed script, log and snapshots"""
+        self.missed = [set(tuple(c) for c in m) for m in missed]
+        self.rx = None
+        self.fills = 0
+        self.log = []
+        self.snapshots = []
 
     # SVER: buffer size in the low half of arg2; version either as a string after the name (0xffff) or,
     # as older SC&MP does, in decimal fixed point in the high half of arg2
@@ -178,13 +223,14 @@ class LoadMachine(simmachine.SimMachine):
     def peek(self, x, y, addr, n):
         out = bytearray()
         sv = self.k["svBase"]
+        vcpu_base = self.vcpu_bases.get((x, y), self.vcpu_base)
         for a in range(addr, addr + n):
             if sv + self.k["offSdramSys"] <= a < sv + self.k["offSdramSys"] + 4:
                 out.append((self.sdram_sys >> (8 * (a - sv - self.k["offSdramSys"]))) & 0xff)
             elif sv + self.k["offVcpuBase"] <= a < sv + self.k["offVcpuBase"] + 4:
-                out.append((self.vcpu_base >> (8 * (a - sv - self.k["offVcpuBase"]))) & 0xff)
-            elif a >= self.vcpu_base and (a - self.vcpu_base) % self.k["vcpuSize"] == self.k["offCpuState"]:
-                out.append(self.core(x, y, (a - self.vcpu_base) // self.k["vcpuSize"])[0])
+                out.append((vcpu_base >> (8 * (a - sv - self.k["offVcpuBase"]))) & 0xff)
+            elif a >= vcpu_base and (a - vcpu_base) % self.k["vcpuSize"] == self.k["offCpuState"]:
+                out.append(self.core(x, y, (a - vcpu_base) // self.k["vcpuSize"])[0])
             else:
                 out.append(simmachine.default_byte(x, y, a))
         return bytes(out)
@@ -325,10 +371,22 @@ def gen_image(rng, buf, big):
     return [rng.randrange(256) for _ in range(ln)]
 
 
-def gen_case(rng, overflow=False):
-    chips = dedup(gen_chips(rng))
-    buf = 4 if overflow else rng.choice(BUFS)
-    n_apps = rng.choice([1, 1, 2, 2, 3])
+VCPU_BASES = [0xe5007000, 0xe5007000, 0xe5008000, 0xe5000000, 0xf5007000]
+
+
+def gen_kinds(rng):
+    """in which legal kind the caller passes each argument"""
+    return {"cores": rng.choice(["set", "set", "set", "frozenset", "list", "tuple", "keys", "range"]),
+            "map": rng.choice(["dict", "dict", "ordered", "default"]),
+            "path": rng.choice(["str", "str", "pathlib"]), "names": rng.choice([0, 0, 1, 2]),
+            "flags": rng.choice(["bool", "bool", "int"]), "ints": rng.choice(["int", "int", "int", "int", "numpy"])}
+
+
+def gen_case(rng, overflow=False, chips=None, buf=None, n_apps=None):
+    chips = dedup(gen_chips(rng)) if chips is None else chips
+    buf = (4 if overflow else rng.choice(BUFS)) if buf is None else buf
+    if n_apps is None:
+        n_apps = rng.choice([1, 1, 2, 2, 3]) if overflow or rng.random() > 0.02 else 0
     app_id = rng.choice([16, 30, 66, 255, rng.randrange(1, 256)])
     used = set()
     apps = []
@@ -361,6 +419,10 @@ def gen_case(rng, overflow=False):
         apps.append({"name": i, "image": image, "targets": targets})
     n_tries = rng.choice([0, 1, 2, 2, 3])
     max_fills = (n_tries + 1) * n_apps
+    if rng.random() < 0.03 and all(len(a["image"]) <= 255 * buf for a in apps):
+        # an unbounded quantity far beyond the usual: the loop ends when everything is loaded (beyond the missed
+        # script no chip misses a fill)
+        n_tries = rng.choice([2 ** 31, 2 ** 32 + 1, 2 ** 64, 2 ** 100])
     mode = rng.choice(["none", "random", "random", "random", "all", "alternating", "all-then-none", "one-chip"])
     missed = []
     stubborn = rng.choice(chips)
@@ -428,9 +490,15 @@ def gen_case(rng, overflow=False):
             put(core, WAIT, rng.choice([app_id, app_id, app_id % 255 + 1]))
     sdram_sys = rng.choice([0x60000000 + 4 * rng.randrange(1 << 16), 0x60000000 + 4 * rng.randrange(1 << 16),
                             0x60000000, 0x60240000, 0x67ff0000 + 4 * rng.randrange(1 << 10)])
-    vcpu_base = rng.choice([0xe5007000, 0xe5007000, 0xe5008000, 0xe5000000, 0xf5007000]) + 128 * rng.randrange(4)
+    vcpu_base = rng.choice(VCPU_BASES) + 128 * rng.randrange(4)
+    # sv.vcpu_base is a system variable of each chip: on some machines it differs between the chips
+    vcpu_bases = []
+    if rng.random() < 0.4:
+        vcpu_bases = [[c[0], c[1], rng.choice(VCPU_BASES) + 128 * rng.randrange(6)] for c in chips if rng.random() < 0.5]
     return {"chips": chips, "buf": buf, "sdram_sys": sdram_sys,
-            "vcpu_base": vcpu_base, "apps": apps, "app_id": app_id,
+            "vcpu_base": vcpu_base, "vcpu_bases": vcpu_bases, "apps": apps, "app_id": app_id,
+            "kinds": gen_kinds(rng), "defaults": rng.random() < 0.25,
+            "delay": rng.choice([0.0, 0.0, 0.1, 0.5, 1]), "subclass": rng.random() < 0.1,
             # how the machine encodes its version in sver (semantic version string / legacy fixed point) and how
             # the caller passes the arguments (map / (filename, targets) / through the controller's context)
             "sver": rng.choice(["semver", "semver", "legacy"]),
@@ -505,80 +573,294 @@ def tmpdir():
 
 
 def canon_targets(t):
-    return [[x, y, sorted(cs)] for (x, y), cs in t.items()]
+    return [[int(x), int(y), sorted(int(c) for c in cs)] for (x, y), cs in t.items()]
+
+
+FILE_NAMES = ["app%d.aplx", "a %d%%s {} {0}.aplx", "%d%%d{x}.aplx"]
+_LIMIT = {"hangs": 0}
+
+
+class SleepRecorder(object):
+    """stands in for the module `time` inside machine_controller during load_application: the pause after every
+    attempt (`app_start_delay`) is recorded instead of slept"""
+
+    def __init__(self):
+        import time
+        self.real = time
+        self.sleeps = []
+
+    def time(self):
+        return self.real.time()
+
+    def sleep(self, d):
+        self.sleeps.append(d)
+
+
+def as_cores(cs, kind, np_ints):
+    """the cores of one chip in one of the collection kinds a caller may legally pass (sized, re-iterable)"""
+    if np_ints:
+        import numpy
+        cs = [numpy.int64(p) for p in cs]
+    if kind == "frozenset":
+        return frozenset(cs)
+    if kind == "list":
+        return list(cs)
+    if kind == "tuple":
+        return tuple(cs)
+    if kind == "keys":
+        return dict.fromkeys(cs).keys()
+    if kind == "range" and cs and not np_ints and list(cs) == list(range(cs[0], cs[0] + len(cs))):
+        return range(cs[0], cs[0] + len(cs))
+    return set(cs)
+
+
+def canon_map(m):
+    return sorted((str(p), sorted((int(x), int(y), sorted(int(c) for c in cs)) for (x, y), cs in t.items()))
+                  for p, t in m.items())
+
+
+class Session(object):
+    """One simulated machine, one or two real controllers talking to it, in this process: every call of a
+    history goes through the same objects (controller caches, nn-id, SCP sequence numbers, the maps the caller
+    passed and was handed back)."""
+
+    def __init__(self, cfg, k):
+        self.cfg, self.k = cfg, k
+
+    def __enter__(self):
+        import contextlib
+        import importlib
+        cfg = self.cfg
+        if cfg.get("reload"):
+            # a history starts from freshly executed modules, so that a replay reproduces whatever module- or
+            # class-level state the calls before it may have left
+            import rig.machine_control.regions
+            import rig.machine_control.machine_controller
+            importlib.reload(rig.machine_control.regions)
+            importlib.reload(rig.machine_control.machine_controller)
+        from rig.machine_control import machine_controller as mcm
+        from rig.machine_control import regions as rg
+        self.mcm, self.rg = mcm, rg
+        self.machine = LoadMachine(cfg["chips"], cfg["buf"], cfg["sdram_sys"], cfg["vcpu_base"], [], cfg["pre"],
+                                   self.k, sver=cfg.get("sver", "semver"), vcpu_bases=cfg.get("vcpu_bases", ()))
+        self.fault_at = None
+        self.net = simnet.Net(self.machine.handle,
+                              lambda i, d: [] if self.fault_at is not None and i >= self.fault_at else None)
+        self.paths, self.records, self.opened = {}, [], []
+        self.real_compress = rg.compress_flood_fill_regions
+
+        def compress(targets):
+            out = list(self.real_compress(targets))
+            self.records.append([canon_targets(targets), [[int(r), int(m)] for r, m in out]])
+            return out
+
+        def rec_open(path, *a, **kw):
+            if path in self.paths:
+                self.opened.append(self.paths[path])
+            return open(path, *a, **kw)
+        rg.compress_flood_fill_regions = compress
+        mcm.open = rec_open
+        self.stack = contextlib.ExitStack()
+        self.stack.enter_context(simnet.installed(self.net))
+        self.ctls = {}
+        self.last_map = None
+        self.kept = []           # (exception, canonical payload when it was raised)
+        self.dir = tempfile.mkdtemp(prefix="s", dir=tmpdir())
+        return self
+
+    def __exit__(self, *a):
+        self.stack.close()
+        self.rg.compress_flood_fill_regions = self.real_compress
+        del self.mcm.open
+        shutil.rmtree(self.dir, ignore_errors=True)
+        return False
+
+    def controller(self, j, nn):
+        if j not in self.ctls:
+            if self.cfg.get("subclass"):
+                base = self.mcm.MachineController
+
+                class Controller(base):      # a user's subclass of rig's controller
+                    pass
+                mc = Controller("sim", n_tries=5, timeout=4.0)
+            else:
+                mc = simmachine.make_controller(self.net, timeout=4.0)
+            if nn is not None:
+                mc._nn_id = nn
+            self.ctls[j] = mc
+        return self.ctls[j]
+
+    def build_map(self, step):
+        """the application map as the caller's objects (file names, path and collection kinds), reusing and
+        editing in place the objects passed to the previous call when the step says so"""
+        import collections
+        import pathlib
+        kinds = step.get("kinds", {})
+        fmt = FILE_NAMES[kinds.get("names", 0)]
+        np_ints = kinds.get("ints") == "numpy"
+        self.paths.clear()
+        by_name = {}
+        for a in step["apps"]:
+            p = os.path.join(self.dir, fmt % a["name"])
+            if not (step.get("missing_file") and a["name"] == step["apps"][0]["name"]):
+                with open(p, "wb") as f:
+                    f.write(bytes(a["image"]))
+            elif os.path.exists(p):
+                os.remove(p)
+            if kinds.get("path") == "pathlib":
+                p = pathlib.Path(p)
+            self.paths[p] = a["name"]
+            by_name[a["name"]] = p
+
+        def chip(x, y):
+            if np_ints:
+                import numpy
+                return (numpy.int64(x), numpy.int64(y))
+            return (x, y)
+        wanted = {by_name[a["name"]]: {chip(x, y): as_cores(cs, kinds.get("cores", "set"), np_ints)
+                                      for x, y, cs in a["targets"]} for a in step["apps"]}
+        if step.get("reuse") and self.last_map is not None:
+            # (a) the caller edits the very objects it passed before and calls again
+            m = self.last_map
+            for p in list(m):
+                if p not in wanted:
+                    del m[p]
+            for p, t in wanted.items():
+                if p not in m:
+                    m[p] = t
+                    continue
+                for c in list(m[p]):
+                    if c not in t:
+                        del m[p][c]
+                for c, cs in t.items():
+                    old = m[p].get(c)
+                    if isinstance(old, set) and isinstance(cs, set):
+                        old.intersection_update(cs)
+                        old.update(cs)
+                    elif isinstance(old, list) and isinstance(cs, list):
+                        old[:] = cs
+                    else:
+                        m[p][c] = cs
+                for c in t:                      # iteration order = the order of the edited map
+                    m[p][c] = m[p].pop(c)
+            for p in wanted:
+                m[p] = m.pop(p)
+            return m
+        mk = kinds.get("map", "dict")
+        if mk == "ordered":
+            return collections.OrderedDict((p, collections.OrderedDict(t)) for p, t in wanted.items())
+        if mk == "default":
+            d = collections.defaultdict(dict)
+            d.update(wanted)
+            return d
+        return wanted
+
+    def call(self, step):
+        import copy
+        from rig.machine_control import scp_connection as sc
+        from harness import common
+        mcm, machine = self.mcm, self.machine
+        machine.begin_call(step["missed"])
+        del self.records[:]
+        del self.opened[:]
+        res = {"before": machine.cores_list()}
+        mc = self.controller(step.get("ctl", 0), step.get("nn"))
+        res["buf"] = mc.scp_data_length
+        res["nn_before"] = mc._nn_id
+        app_map = self.build_map(step)
+        canon_before = canon_map(app_map)
+        kw = dict(app_id=step["app_id"], n_tries=step["n_tries"], wait=step["wait"],
+                  app_start_delay=step.get("delay", 0.0), use_count=step["use_count"])
+        kinds = step.get("kinds", {})
+        if kinds.get("flags") == "int":          # truthy / falsy ints where booleans are documented, bool where an int
+            kw["wait"], kw["use_count"] = int(kw["wait"]), int(kw["use_count"])
+            if kw["n_tries"] in (0, 1):
+                kw["n_tries"] = bool(kw["n_tries"])
+        if kinds.get("ints") == "numpy":
+            import numpy
+            kw["app_id"] = numpy.int64(kw["app_id"])
+        if step.get("defaults"):                 # leave out what equals the documented default
+            for name, default in (("n_tries", 2), ("wait", False), ("use_count", True), ("app_start_delay", 0.1)):
+                if kw[name] == default:
+                    del kw[name]
+        if step.get("only_fill"):
+            kw = dict(app_id=kw["app_id"], wait=step["wait"])
+            if step.get("defaults") and step["wait"]:
+                del kw["wait"]                   # flood_fill_aplx: wait defaults to True
+        recorder = SleepRecorder()
+        real_time = mcm.time
+        mcm.time = recorder
+        if step.get("fault") is not None:
+            self.fault_at = self.net.n_sent + step["fault"]
+        try:
+            # the model terminates (attempts_bounded); a call takes well under a second: one that is still running
+            # after 20 s of CPU time has not returned (5 s once that has happened 3 times)
+            with common.cpu_limit(20 if _LIMIT["hangs"] < 3 else 5):
+                try:
+                    fn = mc.flood_fill_aplx if step.get("only_fill") else mc.load_application
+                    call = step.get("call", "dict")
+                    if call == "pair" and len(app_map) == 1:
+                        (path, targets), = app_map.items()
+                        fn(path, targets, **kw)
+                    elif call == "context":
+                        ctx_kw = {n: kw.pop(n) for n in ("app_id", "n_tries", "wait", "app_start_delay") if n in kw}
+                        with mc(**ctx_kw):
+                            fn(app_map, **kw)
+                    else:
+                        fn(app_map, **kw)
+                    res["outcome"] = "ok"
+                except mcm.SpiNNakerLoadingError as e:
+                    res["outcome"] = {"loading_error": [
+                        {"name": self.paths[p], "targets": [[int(x), int(y), sorted(int(c) for c in cs)]
+                                                             for (x, y), cs in t.items()]}
+                        for p, t in e.app_map.items()]}
+                    try:
+                        res["error_str"] = str(e)
+                    except Exception as e2:      # the message of the documented error cannot be produced
+                        res["error_str_exc"] = "%s %s" % (type(e2).__name__, e2)
+                    if step.get("after_error") == "edit":
+                        # (b) the caller edits what it was handed back
+                        for t in e.app_map.values():
+                            for cs in t.values():
+                                if isinstance(cs, set):
+                                    cs.clear()
+                            t.clear()
+                    else:
+                        # (c) the caller keeps it and looks at it again after later calls
+                        self.kept.append((e, copy.deepcopy(res["outcome"])))
+                except sc.SCPError as e:
+                    res["outcome"] = {"error": "SCPError %r" % (e,)}
+                except (ValueError, TypeError, KeyError, IndexError, OverflowError, AttributeError, struct.error,
+                        IOError, RecursionError, MemoryError, AssertionError) as e:
+                    res["outcome"] = {"error": "%s %s" % (type(e).__name__, e)}
+        except common.ImplHang as e:
+            _LIMIT["hangs"] += 1
+            res["outcome"] = {"hang": str(e)}
+        finally:
+            mcm.time = real_time
+            self.fault_at = None
+        res["nn"] = mc._nn_id
+        res["sleeps"] = recorder.sleeps
+        res["args_mutated"] = canon_map(app_map) != canon_before
+        self.last_map = app_map
+        res["kept_changed"] = []
+        for e, was in self.kept:
+            now = {"loading_error": [{"name": None, "targets": [[int(x), int(y), sorted(int(c) for c in cs)]
+                                                               for (x, y), cs in t.items()]}
+                                     for p, t in e.app_map.items()]}
+            if [a["targets"] for a in now["loading_error"]] != [a["targets"] for a in was["loading_error"]]:
+                res["kept_changed"].append([was, now])
+        res["trace"] = machine.log
+        res["records"] = [list(r) for r in self.records]
+        res["opened"] = list(self.opened)
+        res["after"] = machine.cores_list()
+        res["snapshots"] = [machine.cores_list(sn) for sn in machine.snapshots]
+        return res
 
 
 def run_impl(case, k):
-    from rig.machine_control import machine_controller as mcm
-    from rig.machine_control import regions as rg
-    from rig.machine_control import scp_connection as sc
-    machine = LoadMachine(case["chips"], case["buf"], case["sdram_sys"], case["vcpu_base"],
-                          case["missed"], case["pre"], k, sver=case.get("sver", "semver"))
-    before = machine.cores_list()
-    net = simnet.Net(machine.handle, lambda i, d: None)
-    paths = {}
-    d = tmpdir()
-    for a in case["apps"]:
-        p = os.path.join(d, "app%d.aplx" % a["name"])
-        with open(p, "wb") as f:
-            f.write(bytes(a["image"]))
-        paths[p] = a["name"]
-    app_map = {p: {(x, y): set(cs) for x, y, cs in a["targets"]}
-               for p, a in zip(paths, case["apps"])}
-    records, opened = [], []
-    real_compress = rg.compress_flood_fill_regions
-
-    def compress(targets):
-        out = real_compress(targets)
-        out = list(out)
-        records.append([canon_targets(targets), [[int(r), int(m)] for r, m in out]])
-        return out
-
-    def rec_open(path, *a, **kw):
-        if path in paths:
-            opened.append(paths[path])
-        return open(path, *a, **kw)
-
-    res = {}
-    rg.compress_flood_fill_regions = compress
-    mcm.open = rec_open
-    try:
-        with simnet.installed(net):
-            mc = simmachine.make_controller(net, timeout=4.0)
-            res["buf"] = mc.scp_data_length
-            mc._nn_id = case["nn"]
-            try:
-                call = case.get("call", "dict")
-                if call == "pair" and len(app_map) == 1:
-                    (path, targets), = app_map.items()
-                    mc.load_application(path, targets, app_id=case["app_id"], n_tries=case["n_tries"],
-                                        wait=case["wait"], app_start_delay=0.0, use_count=case["use_count"])
-                elif call == "context":
-                    extra = {} if case["use_count"] else {"use_count": False}       # use_count defaults to True
-                    with mc(app_id=case["app_id"], n_tries=case["n_tries"], wait=case["wait"], app_start_delay=0.0):
-                        mc.load_application(app_map, **extra)
-                else:
-                    mc.load_application(app_map, app_id=case["app_id"], n_tries=case["n_tries"],
-                                        wait=case["wait"], app_start_delay=0.0, use_count=case["use_count"])
-                res["outcome"] = "ok"
-            except mcm.SpiNNakerLoadingError as e:
-                res["outcome"] = {"loading_error": [
-                    {"name": paths[p], "targets": canon_targets(t)} for p, t in e.app_map.items()]}
-            except sc.SCPError as e:
-                res["outcome"] = {"error": "SCPError %r" % (e,)}
-            except (ValueError, TypeError, KeyError, IndexError, OverflowError, AttributeError, struct.error) as e:
-                res["outcome"] = {"error": "%s %s" % (type(e).__name__, e)}
-            res["nn"] = mc._nn_id
-    finally:
-        rg.compress_flood_fill_regions = real_compress
-        del mcm.open
-    res["trace"] = machine.log
-    res["records"] = records
-    res["opened"] = opened
-    res["before"] = before
-    res["after"] = machine.cores_list()
-    res["snapshots"] = [machine.cores_list(s) for s in machine.snapshots]
-    return res
+    with Session(case, k) as s:
+        return s.call(case)
 
 
 # --------------------------------------------------------------------------
@@ -653,65 +935,120 @@ def in_domain(case):
     return all((len(a["image"]) + case["buf"] - 1) // case["buf"] <= 255 for a in case["apps"])
 
 
+STEP_KEYS = ("apps", "app_id", "n_tries", "wait", "use_count", "missed", "call", "ctl", "nn", "kinds", "reuse",
+             "defaults", "delay", "only_fill", "fault", "missing_file", "after_error", "missed_mode", "pre_mode", "twin")
+
+
+def run_history(h, k):
+    """[(payload for a replay, the step as a single case with the actual pre-state and nn-id, what happened)]"""
+    units = []
+    cfg = {key: v for key, v in h.items() if key not in ("history", "upto")}
+    steps = h["history"][:h.get("upto", len(h["history"]) - 1) + 1]
+    with Session(cfg, k) as s:
+        for i, step in enumerate(steps):
+            res = s.call(step)
+            eff = dict(cfg, **step)
+            eff["pre"], eff["nn"] = res["before"], res["nn_before"]
+            eff.setdefault("missed_mode", "history")
+            eff["pre_mode"] = "history" if i else eff.get("pre_mode", "history")
+            eff["step"] = i
+            units.append((dict(h, upto=i), eff, res))
+    return units
+
+
 def eval_cases(ctx, cases):
     k = load_consts()
-    reqs, metas = [], []
+    units = []
     for case in cases:
-        res = run_impl(case, k)
+        if "history" in case:
+            units += run_history(case, k)
+        else:
+            units.append((case, case, run_impl(case, k)))
+    for i in range(0, len(units), 100):
+        eval_units(ctx, units[i:i + 100], k)
+
+
+def abnormal(case, res):
+    """outcomes the model does not speak about: an injected transport fault / missing file, or no return"""
+    o = res["outcome"]
+    if isinstance(o, dict) and "hang" in o:
+        return "hang"
+    if isinstance(o, dict) and "error" in o:
+        if case.get("fault") is not None and o["error"].startswith("SCPError"):
+            return "fault"
+        if case.get("missing_file") and o["error"].split()[0] in ("FileNotFoundError", "IOError", "OSError"):
+            return "missing_file"
+    return None
+
+
+def eval_units(ctx, units, k):
+    reqs, metas = [], []
+    for payload, case, res in units:
         if res["buf"] != case["buf"]:
             raise Infra("simulated machine reported buffer %r, case says %r" % (res["buf"], case["buf"]))
         base = {"suite": "c09", "chips": case["chips"], "missed": case["missed"], "sdram_sys": case["sdram_sys"],
-                "vcpu_base": case["vcpu_base"], "cores": case["pre"]}
+                "vcpu_base": case["vcpu_base"], "vcpu_bases": case.get("vcpu_bases", []), "cores": case["pre"]}
         apps_j = case["apps"]
+        only_fill = bool(case.get("only_fill"))
         batch = []
-        batch.append(("model", dict(base, op="load", compress=res["records"], buf=case["buf"], app_id=case["app_id"],
-                                    n_tries=case["n_tries"], wait=case["wait"], use_count=case["use_count"],
-                                    apps=apps_j, nn=case["nn"])))
-        # the controller of the `_c12` theorems: region compression by C12's model instead of the table
-        batch.append(("model_c12", dict(base, op="load", buf=case["buf"], app_id=case["app_id"],
-                                        n_tries=case["n_tries"], wait=case["wait"], use_count=case["use_count"],
-                                        apps=apps_j, nn=case["nn"])))
-        batch.append(("machine", dict(base, op="machine", reqs=[r for r, _ in res["trace"]])))
+        # a call that did not return, or returned after an absurd number of requests, is reported as such: its
+        # trace is not replayed through the machine specification (tens of thousands of fills)
+        huge = abnormal(case, res) == "hang" or len(res["trace"]) > 60000
+        if not huge:
+            batch.append(("machine", dict(base, op="machine", reqs=[r for r, _ in res["trace"]])))
         fills = split_fills(res["trace"], k)
-        for i, f in enumerate(fills):
-            name = res["opened"][i] if i < len(res["opened"]) else None
-            image = next((a["image"] for a in case["apps"] if a["name"] == name), [])
-            batch.append(("wf", dict(suite="c09", op="wellformed", reqs=f, buf=case["buf"], image=image,
-                                     app_id=case["app_id"], flags=k["flagWait"])))
-        for t, r in res["records"]:
-            batch.append(("regions", dict(suite="c09", op="regions_ok", chips=case["chips"], targets=t, regions=r)))
-        # every re-sent map = the still-unloaded part of the requested map (snapshot at its start packet)
-        n_apps = len([a for a in case["apps"]])
-        for i, (t, _) in enumerate(res["records"]):
-            if i < len(res["opened"]) and i < len(res["snapshots"]):
-                app = next(a for a in case["apps"] if a["name"] == res["opened"][i])
-                first = i < len(res["opened"]) and res["opened"][:i].count(res["opened"][i]) == 0
-                batch.append(("resend", dict(suite="c09", op="resend_ok", chips=case["chips"], app=app, sent=t,
-                                             first=first, app_id=case["app_id"], cores=res["snapshots"][i])))
-        if isinstance(res["outcome"], str) or "loading_error" in res["outcome"]:
-            post = dict(suite="c09", op="post", chips=case["chips"], before=res["before"], after=res["after"],
-                        apps=apps_j, app_id=case["app_id"], wait=case["wait"])
-            if res["outcome"] != "ok":
-                post["unloaded"] = [dict(a, image=[]) for a in res["outcome"]["loading_error"]]
-            batch.append(("post", post))
-        if isinstance(res["outcome"], str) or "loading_error" in res["outcome"]:
-            batch.append(("start_once", dict(suite="c09", op="start_once", app_id=case["app_id"],
-                                             started=(res["outcome"] == "ok" and not case["wait"]),
-                                             reqs=[r for r, _ in res["trace"]])))
-        metas.append((case, res, [b[0] for b in batch], len(fills)))
+        if abnormal(case, res) is None and not huge:
+            # (the model gets n_tries capped at 40: beyond the missed script - at most 12 fills - every attempt
+            # reaches every chip, so a run that needs more attempts differs from the implementation anyway)
+            batch.append(("model", dict(base, op="load", compress=res["records"], buf=case["buf"], app_id=case["app_id"],
+                                        n_tries=min(case["n_tries"], 40), wait=case["wait"], use_count=case["use_count"],
+                                        apps=apps_j, nn=case["nn"], only_fill=only_fill)))
+            # the controller of the `_c12` theorems: region compression by C12's model instead of the table
+            batch.append(("model_c12", dict(base, op="load", buf=case["buf"], app_id=case["app_id"],
+                                            n_tries=min(case["n_tries"], 40), wait=case["wait"], use_count=case["use_count"],
+                                            apps=apps_j, nn=case["nn"], only_fill=only_fill)))
+            for i, f in enumerate(fills):
+                name = res["opened"][i] if i < len(res["opened"]) else None
+                image = next((a["image"] for a in case["apps"] if a["name"] == name), [])
+                batch.append(("wf", dict(suite="c09", op="wellformed", reqs=f, buf=case["buf"], image=image,
+                                         app_id=case["app_id"],
+                                         flags=k["flagWait"] if (case["wait"] or not only_fill) else 0)))
+            for t, r in res["records"]:
+                batch.append(("regions", dict(suite="c09", op="regions_ok", chips=case["chips"], targets=t, regions=r)))
+            # every re-sent map = the still-unloaded part of the requested map (snapshot at its start packet)
+            for i, (t, _) in enumerate(res["records"]):
+                if not only_fill and i < len(res["opened"]) and i < len(res["snapshots"]):
+                    app = next(a for a in case["apps"] if a["name"] == res["opened"][i])
+                    first = i < len(res["opened"]) and res["opened"][:i].count(res["opened"][i]) == 0
+                    batch.append(("resend", dict(suite="c09", op="resend_ok", chips=case["chips"], app=app, sent=t,
+                                                 first=first, app_id=case["app_id"], cores=res["snapshots"][i])))
+            normal = isinstance(res["outcome"], str) or "loading_error" in res["outcome"]
+            missed_any = any(case["missed"][i] for i in range(min(len(fills), len(case["missed"]))))
+            if normal and not (only_fill and missed_any):
+                # flood_fill_aplx called directly promises the cores only when no chip missed the fill
+                post = dict(suite="c09", op="post", chips=case["chips"], before=res["before"], after=res["after"],
+                            apps=apps_j, app_id=case["app_id"], wait=case["wait"])
+                if res["outcome"] != "ok":
+                    post["unloaded"] = [dict(a, image=[]) for a in res["outcome"]["loading_error"]]
+                batch.append(("post", post))
+            if normal:
+                batch.append(("start_once", dict(suite="c09", op="start_once", app_id=case["app_id"],
+                                                 started=(res["outcome"] == "ok" and not case["wait"] and not only_fill),
+                                                 reqs=[r for r, _ in res["trace"]])))
+        metas.append((payload, case, res, [b[0] for b in batch], len(fills)))
         reqs += [b[1] for b in batch]
     replies = ctx.lean(reqs)
     pos = 0
     judged = []
-    for case, res, kinds, n_fills in metas:
+    for payload, case, res, kinds, n_fills in metas:
         rs = replies[pos:pos + len(kinds)]
         pos += len(kinds)
-        judged.append((case, res, kinds, rs, n_fills))
+        judged.append((payload, case, res, kinds, rs, n_fills))
     # a post-condition violation is filed under a known stale-waiter finding only if the proved predicate
     # (staleMasks / staleHides, theorem load_sound_iff_preclean_needed) holds of the pre-state, the request and
     # the violating cores
     stale_reqs, stale_idx = [], {}
-    for i, (case, res, kinds, rs, n_fills) in enumerate(judged):
+    for i, (payload, case, res, kinds, rs, n_fills) in enumerate(judged):
         for kind, r in zip(kinds, rs):
             if kind == "post" and "ok" in r and not r["ok"]:
                 stale_idx[i] = len(stale_reqs)
@@ -719,11 +1056,12 @@ def eval_cases(ctx, cases):
                                        apps=case["apps"], app_id=case["app_id"], wait=case["wait"],
                                        use_count=case["use_count"], missed=r["bad"]))
     stale = ctx.lean(stale_reqs) if stale_reqs else []
-    for i, (case, res, kinds, rs, n_fills) in enumerate(judged):
-        judge(ctx, case, res, kinds, rs, n_fills, k, stale[stale_idx[i]] if i in stale_idx else None)
+    for i, (payload, case, res, kinds, rs, n_fills) in enumerate(judged):
+        judge(ctx, case, res, kinds, rs, n_fills, k, stale[stale_idx[i]] if i in stale_idx else None, payload)
 
 
-def judge(ctx, case, res, kinds, rs, n_fills, k, stale=None):
+def judge(ctx, case, res, kinds, rs, n_fills, k, stale=None, payload=None):
+    payload = case if payload is None else payload
     for r in list(rs) + ([stale] if stale else []):
         if "proto_error" in r:
             raise Infra("lean driver: %s" % r["proto_error"])
@@ -734,7 +1072,7 @@ def judge(ctx, case, res, kinds, rs, n_fills, k, stale=None):
     resent = len(res["opened"]) > len(set(res["opened"]))
     missed_any = any(case["missed"][i] for i in range(min(n_fills, len(case["missed"]))))
     nontrivial = (missed_any and resent) or outcome != "ok" or not clean
-    ctx.case(case, nontrivial)
+    ctx.case(case, nontrivial)    # counted: the step as a single case (actual pre-state and nn-id)
     ctx.traces += 1
     ctx.tag("missed_" + case["missed_mode"], "pre_" + case["pre_mode"],
             "mode_" + ("count" if case["use_count"] else "readback"),
@@ -750,22 +1088,88 @@ def judge(ctx, case, res, kinds, rs, n_fills, k, stale=None):
         ctx.tag("multi_block")
     if not dom:
         ctx.tag("over_255_blocks")
-    # ---- undocumented exceptions --------------------------------------------------
-    if isinstance(outcome, dict) and "error" in outcome:
-        ctx.violation("unexpected-error", "load_application raised %s" % outcome["error"], case)
-        return
+    kinds_ = case.get("kinds", {})
+    ctx.tag("cores_as_" + kinds_.get("cores", "set"), "map_as_" + kinds_.get("map", "dict"),
+            "ints_" + kinds_.get("ints", "int"), "path_" + kinds_.get("path", "str"),
+            "file_names_%d" % kinds_.get("names", 0), "flags_as_" + kinds_.get("flags", "bool"))
+    if case.get("vcpu_bases"):
+        ctx.tag("vcpu_base_differs_between_chips")
+    if case.get("delay", 0.0):
+        ctx.tag("start_delay_nonzero", "start_delay_slept_each_attempt" if res["sleeps"] and all(
+            d == case["delay"] for d in res["sleeps"]) else "start_delay_other_sleeps")
+    for flag in ("defaults", "only_fill", "reuse", "subclass", "reload"):
+        if case.get(flag):
+            ctx.tag("opt_" + flag)
+    if "step" in case:
+        ctx.tag("history_step", "history_step_%s" % min(case["step"], 3), "history_ctl_%d" % case.get("ctl", 0),
+                "twin_" + case.get("twin", "none"))
+        if res["nn"] < res["nn_before"]:
+            ctx.tag("nn_id_wrapped")
+    if len(case["chips"]) > 100:
+        ctx.tag("machine_over_100_chips")
+    if len(case["apps"]) > 20:
+        ctx.tag("over_20_binaries")
+    if case["n_tries"] > 2 ** 30:
+        ctx.tag("n_tries_big")
+    if len(case["apps"]) == 0:
+        ctx.tag("empty_map")
     by = {}
     for kind, r in zip(kinds, rs):
         by.setdefault(kind, []).append(r)
+    if "machine" not in by:
+        ctx.tag("did_not_return" if abnormal(case, res) == "hang" else "trace_over_60000_requests")
+        if abnormal(case, res) == "hang":
+            # the model's retry loop terminates (theorem attempts_bounded)
+            ctx.violation("did-not-return", "load_application %s (%d requests sent)" % (
+                outcome["hang"], len(res["trace"])), payload)
+        else:
+            ctx.mismatch("c09.trace", "the call sent %d requests" % len(res["trace"]), payload)
+        return
     # ---- (b) simulator vs Lean machine specification --------------------------------
     m = by["machine"][0]
     sim_replies = [e[1] for e in res["trace"]]
-    if m["replies"] != sim_replies:
-        i = next(i for i, (a, b) in enumerate(zip(m["replies"], sim_replies)) if a != b)
+    outside = [i for i, a in enumerate(m["replies"]) if a.get("rc") == "unmodelled"]
+    if outside:
+        # the implementation sent a request the machine specification gives no meaning to (e.g. a read of an
+        # address that is no system variable of that chip): whatever the simulator answered is not to be trusted;
+        # the comparison with the model below reports the difference
+        ctx.tag("request_outside_machine_spec")
+    if [a for i, a in enumerate(m["replies"]) if i not in outside] != \
+            [b for i, b in enumerate(sim_replies) if i not in outside]:
+        i = next(i for i, (a, b) in enumerate(zip(m["replies"], sim_replies)) if a != b and i not in outside)
         raise Infra("simulated machine and Lean machine specification disagree on reply %d: spec %r sim %r (request %r)" % (
             i, m["replies"][i], sim_replies[i], res["trace"][i][0]))
     if sorted(m["cores"]) != sorted(res["after"]):
         raise Infra("simulated machine and Lean machine specification disagree on the final core states")
+    # ---- results kept by the caller, arguments passed by the caller ------------------------
+    if res.get("kept_changed"):
+        ctx.violation("error-payload-changed", "the map of an earlier SpiNNakerLoadingError changed after it was raised: "
+                      "%r" % (res["kept_changed"][:1],), payload)
+    if res.get("args_mutated"):
+        ctx.tag("args_mutated")
+        ctx.mismatch("c09.args_mutated", "the application map passed by the caller was modified by the call", payload)
+    if "error_str_exc" in res:
+        ctx.tag("error_str_raises")
+        ctx.mismatch("c09.error_str", "str() of the SpiNNakerLoadingError raises %s" % res["error_str_exc"], payload)
+    # ---- outcomes outside the model: injected faults, no return ----------------------------
+    ab = abnormal(case, res)
+    if ab == "hang":
+        # the model's retry loop terminates (theorem attempts_bounded)
+        ctx.tag("did_not_return")
+        ctx.violation("did-not-return", "load_application %s" % outcome["hang"], payload)
+        return
+    if ab is not None:
+        # the transport (C06) / the file system failed as scripted: the documented exception of that layer; what
+        # matters here is that the same controller and machine keep working in the following steps
+        ctx.tag("abnormal_" + ab)
+        return
+    if case.get("fault") is not None:
+        ctx.tag("fault_after_last_request")
+    # ---- undocumented exceptions --------------------------------------------------
+    if isinstance(outcome, dict) and "error" in outcome:
+        ctx.violation("unexpected-error", "%s raised %s" % (
+            "flood_fill_aplx" if case.get("only_fill") else "load_application", outcome["error"]), payload)
+        return
     # ---- (c) oracles on the implementation's behaviour ------------------------------
     fills_req = split_fills(res["trace"], k)
     for i, r in enumerate(by.get("wf", [])):
@@ -781,19 +1185,19 @@ def judge(ctx, case, res, kinds, rs, n_fills, k, stale=None):
             ctx.violation(key, "fill %d sent by flood_fill_aplx is not well formed (block count / numbering / size / "
                           "reassembly / id / core-select order): %s%s" % (
                               i, detail, "" if dom else "; the binary needs more than 255 blocks, the 8-bit count of the start packet overflows"),
-                          case)
+                          payload)
             break
     for (t, rg_), r in zip(res["records"], by.get("regions", [])):
         if not r["ok"]:
-            ctx.violation("regions-wrong", "core selections %r are not strictly increasing or do not select exactly %r" % (rg_, t), case)
+            ctx.violation("regions-wrong", "core selections %r are not strictly increasing or do not select exactly %r" % (rg_, t), payload)
             break
     if clean:
         for r in by.get("resend", []):
             if not r["ok"]:
-                ctx.violation("resend-inexact", "a flood fill was sent to a map that is not the still-unloaded part of the request", case)
+                ctx.violation("resend-inexact", "a flood fill was sent to a map that is not the still-unloaded part of the request", payload)
                 break
-    if n_fills > (case["n_tries"] + 1) * len(case["apps"]):
-        ctx.violation("too-many-attempts", "%d fills for %d binaries with n_tries=%d" % (n_fills, len(case["apps"]), case["n_tries"]), case)
+    if not case.get("only_fill") and n_fills > (case["n_tries"] + 1) * len(case["apps"]):
+        ctx.violation("too-many-attempts", "%d fills for %d binaries with n_tries=%d" % (n_fills, len(case["apps"]), case["n_tries"]), payload)
     if "post" in by:
         r = by["post"][0]
         if not r["ok"]:
@@ -811,12 +1215,12 @@ def judge(ctx, case, res, kinds, rs, n_fills, k, stale=None):
                               "binary under the app id and wait/run as asked, error names exactly the unloaded cores, "
                               "other cores untouched)" % (
                                   "load_application returned normally" if outcome == "ok" else "SpiNNakerLoadingError raised",
-                                  r["bad"][:6]), case)
+                                  r["bad"][:6]), payload)
     # the start signal: exactly one, the last request, only on a normal return with wait=False
     # (theorem start_signal_once; anything it changes on the cores is a violation of `post` above)
     if "start_once" in by and not by["start_once"][0]["ok"]:
         ctx.mismatch("c09.start_once", "the requests of the call do not contain exactly one start signal as the last "
-                     "request (normal return, wait=False) / contain a signal packet (wait=True or error)", case)
+                     "request (normal return, wait=False) / contain a signal packet (wait=True or error)", payload)
     # ---- (a) model correspondence ------------------------------------------------------
     it = [norm_entry(e) for e in canon_trace(res["trace"], k)]
     for kind, suite in (("model", "c09"), ("model_c12", "c09.c12")):
@@ -825,11 +1229,11 @@ def judge(ctx, case, res, kinds, rs, n_fills, k, stale=None):
         if it != mt:
             i = next((i for i, (a, b) in enumerate(zip(it, mt)) if a != b), min(len(it), len(mt)))
             ctx.mismatch(suite + ".trace", "request/reply %d differs (impl %d entries, model %d): impl=%r model=%r" % (
-                i, len(it), len(mt), it[i:i + 1], mt[i:i + 1]), case)
+                i, len(it), len(mt), it[i:i + 1], mt[i:i + 1]), payload)
         elif canon_outcome(outcome) != canon_outcome(mo["outcome"]):
-            ctx.mismatch(suite + ".outcome", "impl=%r model=%r" % (canon_outcome(outcome), canon_outcome(mo["outcome"])), case)
+            ctx.mismatch(suite + ".outcome", "impl=%r model=%r" % (canon_outcome(outcome), canon_outcome(mo["outcome"])), payload)
         elif sorted(mo["cores"]) != sorted(res["after"]) or mo["nn"] != res["nn"]:
-            ctx.mismatch(suite + ".state", "final core states / nn id differ: impl nn=%r model nn=%r" % (res["nn"], mo["nn"]), case)
+            ctx.mismatch(suite + ".state", "final core states / nn id differ: impl nn=%r model nn=%r" % (res["nn"], mo["nn"]), payload)
         else:
             continue
         break
@@ -887,6 +1291,8 @@ def py_arg(spec, enum):
     """{"name": s} -> the str; {"value": n, "as": "int" | "member"} -> the int or the enum member"""
     if "name" in spec:
         return spec["name"]
+    if spec.get("as") == "bool":
+        return bool(spec["value"])
     return enum(spec["value"]) if spec.get("as") == "member" else spec["value"]
 
 
@@ -902,8 +1308,10 @@ def gen_arg(rng, table, enum_name):
         return {"name": rng.choice(names)}
     if r < 0.65:
         return {"value": rng.choice(vals), "as": "member"}
-    if r < 0.85:
+    if r < 0.82:
         return {"value": rng.choice(vals), "as": "int"}
+    if r < 0.85:
+        return {"value": rng.choice([0, 1]), "as": "bool"}      # True == 1 and False == 0 are members by value
     if r < 0.93:
         return {"name": rng.choice(["nosuch", "Wait", "waiting", "", "start_", "run "])}
     return {"value": rng.choice([v for v in (12, 13, 14, 16, 17, 31, 255, 256) if v not in vals]), "as": "int"}
@@ -923,6 +1331,7 @@ def gen_sig_case(rng, t):
             "pre": [pre[c] for c in sorted(pre)]}
     kind = rng.choice(["signal", "count", "count", "wait", "wait", "wait"])
     case["kind"] = kind
+    case["conv"] = rng.choice(["pos", "pos", "kw", "ctx"])
     if kind == "signal":
         case["signal"] = gen_arg(rng, t["appSignals"], "AppSignal")
         if rng.random() < 0.35:
@@ -950,7 +1359,7 @@ def gen_sig_case(rng, t):
         case["container"] = "tuple"
     # wait: target count, timeout, clock script, evolution of the machine during the sleeps
     n_now = sum(1 for c in pre.values() if c[4] == app_id)
-    case["count"] = rng.choice([0, 1, 2, 3, n_now, n_now + 1, n_now + 2, 40])
+    case["count"] = rng.choice([0, 1, 2, 3, n_now, n_now, n_now + 1, n_now + 2, 40, 2 ** 31, 2 ** 64 + 1])
     steps = rng.randrange(0, 6)
     evolve = []
     for _ in range(steps):
@@ -972,7 +1381,7 @@ def gen_sig_case(rng, t):
         case["timeout"], case["clock"] = tmo, clock
     else:
         case["timeout"], case["clock"] = None, []
-    case["poll"] = rng.choice([0.1, 0.25, 1.0])
+    case["poll"] = rng.choice([0.1, 0.25, 1.0, 0, 2])
     return case
 
 
@@ -990,21 +1399,37 @@ def run_sig_impl(case, k, t):
             vals = [py_arg(a, consts.AppState) for a in st]
             return {"list": list, "tuple": tuple, "gen": lambda v: (x for x in v)}[case["container"]](vals)
         return py_arg(st, consts.AppState)
+    from harness import common
+    conv = case.get("conv", "pos")
+
+    def invoke(fn, names, *args):
+        """positional / keyword / app_id through the controller's context"""
+        if conv == "kw":
+            return fn(**dict(zip(names, args)))
+        if conv == "ctx":
+            kw = dict(zip(names, args))
+            with mc(app_id=kw.pop("app_id")):
+                return fn(**kw)
+        return fn(*args)
     with simnet.installed(net):
         mc = simmachine.make_controller(net, timeout=4.0)
         try:
+          # polls and signals take milliseconds; the wait loop is cut by the scripted sleep (fuel)
+          with common.cpu_limit(20 if _LIMIT["hangs"] < 3 else 5):
             if case["kind"] == "signal":
-                mc.send_signal(py_arg(case["signal"], consts.AppSignal), case["app_id"])
+                invoke(mc.send_signal, ("signal", "app_id"), py_arg(case["signal"], consts.AppSignal), case["app_id"])
                 res["result"] = "ok"
             elif case["kind"] == "count":
-                res["result"] = {"count": int(mc.count_cores_in_state(state_value(), case["app_id"]))}
+                res["result"] = {"count": int(invoke(mc.count_cores_in_state, ("state", "app_id"),
+                                                     state_value(), case["app_id"]))}
             else:
                 fake = FakeTime(machine, case["clock"], case["evolve"], case["fuel"])
                 real = mcm.time
                 mcm.time = fake
                 try:
-                    n = mc.wait_for_cores_to_reach_state(state_value(), case["count"], case["app_id"],
-                                                         poll_interval=case["poll"], timeout=case["timeout"])
+                    n = invoke(mc.wait_for_cores_to_reach_state,
+                               ("state", "count", "app_id", "poll_interval", "timeout"),
+                               state_value(), case["count"], case["app_id"], case["poll"], case["timeout"])
                     res["result"] = {"count": int(n)}
                 except WaitCap:
                     res["result"] = "out_of_fuel"
@@ -1012,6 +1437,9 @@ def run_sig_impl(case, k, t):
                     mcm.time = real
                     res["sleeps"] = fake.sleeps
                     res["clock_reads"] = fake.reads
+        except common.ImplHang as e:
+            _LIMIT["hangs"] += 1
+            res["result"] = {"error": "DidNotReturn %s" % e}
         except ValueError:
             res["result"] = {"error": "ValueError"}
         except KeyError:
@@ -1081,7 +1509,12 @@ def judge_sig(ctx, case, res, mo, orc):
     ctx.traces += 1
     rtag = "ok" if result == "ok" else "out_of_fuel" if result == "out_of_fuel" else \
         "count" if "count" in result else result["error"].split()[0]
-    ctx.tag("sig_" + kind, "sig_" + kind + "_" + rtag)
+    ctx.tag("sig_" + kind, "sig_" + kind + "_" + rtag, "sig_conv_" + case.get("conv", "pos"))
+    arg = case.get("signal") if kind == "signal" else case.get("state")
+    for a_ in (arg if isinstance(arg, list) else [arg]):
+        ctx.tag("sig_arg_" + ("name" if "name" in a_ else a_.get("as", "int")))
+    if kind == "wait" and case["count"] > 2 ** 30:
+        ctx.tag("wait_count_big")
     if kind == "wait":
         ctx.tag("wait_timeout" if case["timeout"] is not None else "wait_no_timeout",
                 "wait_sleeps_%s" % (min(len(res["sleeps"]), 3)))
@@ -1145,6 +1578,163 @@ def run_sig(ctx):
     for i in range(0, len(cases), 200):
         eval_sig_cases(ctx, cases[i:i + 200])
 
+# --------------------------------------------------------------------------
+# histories: several calls on one machine through one or two controllers; scale
+# --------------------------------------------------------------------------
+def step_of(case):
+    return {key: case[key] for key in STEP_KEYS if key in case}
+
+
+def gen_missed(rng, chips, n_fills):
+    mode = rng.choice(["none", "none", "random", "random", "all-then-none", "all"])
+    out = []
+    for i in range(min(n_fills, 12)):
+        if mode == "random":
+            out.append([c for c in chips if rng.random() < 0.3])
+        elif mode == "all" or (mode == "all-then-none" and i == 0):
+            out.append(list(chips))
+        else:
+            out.append([])
+    return out, mode
+
+
+def gen_twin(rng, prev, chips, buf):
+    """the previous call again, equal in all but one aspect"""
+    import copy
+    step = copy.deepcopy(prev)
+    for key in ("fault", "missing_file", "nn"):
+        step.pop(key, None)
+    aspects = ["same", "wait", "mode", "app_id", "n_tries", "kinds", "call", "delay", "only_fill"]
+    if step["apps"]:
+        aspects += ["core", "core", "chip", "image", "image"]
+    aspect = rng.choice(aspects)
+    apps = step["apps"]
+    used = {(x, y, p) for a in apps for x, y, cs in a["targets"] for p in cs}
+    if aspect == "wait":
+        step["wait"] = not step["wait"]
+    elif aspect == "mode":
+        step["use_count"] = not step["use_count"]
+    elif aspect == "app_id":
+        step["app_id"] = step["app_id"] % 255 + 1
+    elif aspect == "n_tries":
+        step["n_tries"] = rng.choice([n for n in (0, 1, 2, 3) if n != step["n_tries"]])
+    elif aspect == "kinds":
+        step["kinds"] = gen_kinds(rng)
+    elif aspect == "call":
+        step["call"] = rng.choice([c for c in ("dict", "context") + (("pair",) if len(apps) == 1 else ())
+                                   if c != step.get("call")] or ["dict"])
+    elif aspect == "delay":
+        step["delay"] = rng.choice([d for d in (0.0, 0.1, 0.5) if d != step.get("delay", 0.0)])
+    elif aspect == "only_fill":
+        step["only_fill"] = not step.get("only_fill", False)
+    elif aspect == "core":
+        a = rng.choice(apps)
+        free = [(x, y, p) for (x, y) in map(tuple, chips) for p in range(18) if (x, y, p) not in used]
+        full = [t for t in a["targets"] if t[2]]
+        if free and (not full or rng.random() < 0.5):
+            x, y, p = rng.choice(free)
+            t = next((t for t in a["targets"] if (t[0], t[1]) == (x, y)), None)
+            if t is None:
+                a["targets"].append([x, y, [p]])
+            else:
+                t[2] = sorted(t[2] + [p])
+        elif full:
+            t = rng.choice(full)
+            t[2].remove(rng.choice(t[2]))
+    elif aspect == "chip":
+        a = rng.choice(apps)
+        if a["targets"]:
+            a["targets"].remove(rng.choice(a["targets"]))
+    elif aspect == "image":
+        a = rng.choice(apps)
+        if a["image"] and rng.random() < 0.5:
+            a["image"] = [(b + 1) % 256 for b in a["image"]]          # same length, other contents, same file name
+        else:
+            a["image"] = gen_image(rng, buf, False)
+    n_fills = (min(step["n_tries"], 3) + 1) * len(apps)
+    step["missed"], step["missed_mode"] = gen_missed(rng, chips, n_fills)
+    step["twin"] = aspect
+    return step
+
+
+def gen_history(rng, long_run=False):
+    if long_run:
+        # more than 130 fills through one controller (the nn-id passes 126 and wraps) on a small machine
+        chips = [[0, 0], [1, 0], [0, 1]]
+        first = gen_case(rng, chips=chips, buf=rng.choice([4, 8, 16]), n_apps=4)
+    else:
+        first = gen_case(rng)
+        if len(first["chips"]) > 16:
+            first = gen_case(rng, chips=first["chips"][:16])
+    chips, buf = first["chips"], first["buf"]
+    h = {key: first[key] for key in ("chips", "buf", "sdram_sys", "vcpu_base", "vcpu_bases", "sver", "pre", "subclass")}
+    h["reload"] = True
+    steps = [step_of(first)]
+    steps[0]["pre_mode"] = first["pre_mode"]
+    n = 35 if long_run else rng.choice([2, 3, 3, 4, 5, 6])
+    for i in range(1, n):
+        r = rng.random()
+        if long_run:
+            step = step_of(gen_case(rng, chips=chips, buf=buf, n_apps=4))
+            step["twin"] = "other"
+            if rng.random() < 0.8:
+                step["n_tries"], step["missed"], step["missed_mode"] = 1, [], "none"
+        elif r < 0.6:
+            step = gen_twin(rng, steps[-1], chips, buf)
+        else:
+            step = step_of(gen_case(rng, chips=chips, buf=buf))
+            step["twin"] = "other"
+        if not long_run or rng.random() < 0.5:
+            if rng.random() < 0.7:
+                step["app_id"] = steps[0]["app_id"]
+        step["ctl"] = rng.choice([0, 0, 1])
+        if step["ctl"] == 1 and not any(st.get("ctl") == 1 for st in steps):
+            step["nn"] = rng.choice([0, 60, 125, 126])
+        else:
+            step.pop("nn", None)
+        step["reuse"] = rng.random() < 0.4
+        step["after_error"] = rng.choice(["keep", "keep", "edit"])
+        if not long_run:
+            r = rng.random()
+            if r < 0.12:
+                step["fault"] = rng.choice([0, 1, 2, 3, 5, 8, 13, 21, 40])     # the transport dies at that datagram
+            elif r < 0.16 and step["apps"]:
+                step["missing_file"] = True
+        steps.append(step)
+    h["history"] = steps
+    return h
+
+
+def many_binaries_case(rng):
+    """one map with more binaries than the fill id has values (126): 136 fills in one call"""
+    chips = [[x, y] for x in range(4) for y in range(2)]
+    cores = [(x, y, p) for x, y in chips for p in range(1, 18)]
+    rng.shuffle(cores)
+    buf = rng.choice([4, 8])
+    apps = [{"name": i, "image": [rng.randrange(256) for _ in range(rng.choice([4, 8, 12]))],
+             "targets": [[cores[i][0], cores[i][1], [cores[i][2]]]]} for i in range(136)]
+    case = gen_case(rng, chips=chips, buf=buf, n_apps=1)
+    case.update(apps=apps, n_tries=1, call="dict", pre=[], pre_mode="none", missed_mode="random",
+                missed=[[c for c in chips if rng.random() < 0.05] for _ in range(272)])
+    return case
+
+
+def scale_cases(rng, n):
+    """a handful of cases far beyond the usual size: the longest machines the 8-bit chip coordinates allow
+    (256 x 1, 1 x 256, 2 x 200), more binaries than fill ids"""
+    out = [many_binaries_case(rng)]
+    shapes = [[[x, 0] for x in range(256)], [[0, y] for y in range(256)],
+              [[x, y] for x in range(2) for y in range(200)], [[x, y] for x in range(16) for y in range(16)]]
+    rng.shuffle(shapes)
+    for chips in shapes[:n]:
+        case = gen_case(rng, chips=chips, buf=rng.choice([64, 256]), n_apps=rng.choice([1, 2]))
+        for a in case["apps"]:
+            a["image"] = a["image"][:512]
+        case["n_tries"] = min(case["n_tries"], 1)
+        case["missed"] = case["missed"][:(case["n_tries"] + 1) * len(case["apps"])]
+        out.append(case)
+    return out
+
 
 def run(ctx):
     ctx.extra["rule"] = RULE
@@ -1168,15 +1758,21 @@ def run(ctx):
         cases = [stale_count_case(), stale_readback_case(), overflow_case(),
                  stale_more_case(1), stale_more_case(2), stale_more_case(3), stale_more_case(5)]
         cases += [big_buffer_case(b, uc) for b in (128, 260, 512, 1024) for uc in (True, False)]
-        n = ctx.scale(280, 5000)
+        n = ctx.scale(200, 3200)
         if ctx.extended:
             n *= 4
         for i in range(n):
             cases.append(gen_case(ctx.rng, overflow=(i % 97 == 50)))
+        # histories: 2-6 calls on one machine through one or two controllers (twins, edited maps, faults), one
+        # (thorough: three) of more than 130 fills; a handful of cases far beyond the usual size
+        nh = ctx.scale(40, 600) * (4 if ctx.extended else 1)
+        cases += [gen_history(ctx.rng) for _ in range(nh)]
+        cases += [gen_history(ctx.rng, long_run=True) for _ in range(ctx.scale(1, 3))]
+        cases += scale_cases(ctx.rng, ctx.scale(2, 4))
         if not ctx.quick:
             cases += exhaustive_missed()
-        for i in range(0, len(cases), 100):
-            eval_cases(ctx, cases[i:i + 100])
+        for i in range(0, len(cases), 50):
+            eval_cases(ctx, cases[i:i + 50])
         run_sig(ctx)
     finally:
         if _TMP[0]:
